@@ -23,6 +23,7 @@ func init() {
 			{"INDEX-UPDATE-TABLE", ruleIndexUpdateTable},
 			{"INDEX-COND-CONJUNCTIVE", ruleIndexCondConjunctive},
 			{"DECODE-NO-DEFAULTS", ruleDecodeNoDefaults},
+			{"UNWRAP-EQ-TIME", ruleUnwrapEqTime},
 			{"IN-VALUES-DISTINCT", ruleInValuesDistinct},
 			{"SYNC-INDEX-TABLE", ruleSyncIndexTable},
 			{"PREFIX-END-SHAPE", rulePrefixEndShape},
@@ -39,7 +40,7 @@ func init() {
 			}},
 		},
 		Meta: eng.PropMeta{
-			Explanation: "Decides the structural necessary conditions of index/scan equivalence: (INDEX-PAIRING) every mutation route maintains the indexes inside the same transaction — create passes indexNewDoc on every success path, save(update) passes updateIndexedDoc before the first field write, every caller of applyDelete removes the document's index entries first, executeMerge syncs the index of every merged document before Commit, addNewIndex indexes existing documents; (FILTER-REAPPLY) whenever a filter is present the filtered fetcher wraps whatever sits below (index or scan), so an over-approximating index iterator can never return a non-matching document; (RANGE-TABLE) the 2x4 table (descending x {gt,ge,lt,le}) -> (start,end) bounds of createRangeBoundaries equals the order-theoretic oracle (8 cells, exhaustive); (UNIQUE-CHECK) the uniqueness probe dominates the unique key write and its positive edge returns an error; (KIND-TABLES) every kind isSupportedKind admits has a NewNormalNil case; (ERRFLOW) no storage-derived error is dropped in the index maintenance and index fetch cone. (ORDER-AGREEMENT) the index iterators visit values in the direction the planner assumed when it dropped the order node; (INDEX-UPDATE-TABLE) isUpdatingIndexedFields returns 'changed' exactly for the cells (old set?, new set?, equal?) in which an indexed field's value differs, and moves to the next field otherwise; (INDEX-COND-CONJUNCTIVE) every connor operator is classified and the index fetcher's condition search skips every non-conjunctive compound operator (_or, _not); (IN-VALUES-DISTINCT) the _in iterator's value list passes a de-duplicating step; (RECURSION-ARGS) sibling recursive calls agree on pass-through parameters (a skip list or visitor handed down unchanged by one recursive call is not dropped by another). INDEX-COND-CONJUNCTIVE additionally requires that the filter searched for index conditions is not produced by filter.CopyField/Merge (which keep of an _or only the branches mentioning the field and normalize a single one into a plain condition). (PREFIX-END-SHAPE) keys.bytesPrefixEnd works on a copy and returns it cut right after the incremented byte (the bound is used as an exclusive start as well as an end); (SYNC-INDEX-TABLE) as in C01; ORDER-AGREEMENT additionally requires the one-pass-per-value _in iterator to sort its values when the index is relied on for the order. (DECODE-NO-DEFAULTS) the old document that index maintenance reads through Collection.Get holds stored values only: a field explicitly set to null is nil, not its schema default (otherwise the entry to remove is computed from the default and the update fails with 'corrupted index').",
+			Explanation: "Decides the structural necessary conditions of index/scan equivalence: (INDEX-PAIRING) every mutation route maintains the indexes inside the same transaction — create passes indexNewDoc on every success path, save(update) passes updateIndexedDoc before the first field write, every caller of applyDelete removes the document's index entries first, executeMerge syncs the index of every merged document before Commit, addNewIndex indexes existing documents; (FILTER-REAPPLY) whenever a filter is present the filtered fetcher wraps whatever sits below (index or scan), so an over-approximating index iterator can never return a non-matching document; (RANGE-TABLE) the 2x4 table (descending x {gt,ge,lt,le}) -> (start,end) bounds of createRangeBoundaries equals the order-theoretic oracle (8 cells, exhaustive); (UNIQUE-CHECK) the uniqueness probe dominates the unique key write and its positive edge returns an error; (KIND-TABLES) every kind isSupportedKind admits has a NewNormalNil case; (ERRFLOW) no storage-derived error is dropped in the index maintenance and index fetch cone. (ORDER-AGREEMENT) the index iterators visit values in the direction the planner assumed when it dropped the order node; (INDEX-UPDATE-TABLE) isUpdatingIndexedFields returns 'changed' exactly for the cells (old set?, new set?, equal?) in which an indexed field's value differs, and moves to the next field otherwise; (INDEX-COND-CONJUNCTIVE) every connor operator is classified and the index fetcher's condition search skips every non-conjunctive compound operator (_or, _not); (IN-VALUES-DISTINCT) the _in iterator's value list passes a de-duplicating step; (RECURSION-ARGS) sibling recursive calls agree on pass-through parameters (a skip list or visitor handed down unchanged by one recursive call is not dropped by another). INDEX-COND-CONJUNCTIVE additionally requires that the filter searched for index conditions is not produced by filter.CopyField/Merge (which keep of an _or only the branches mentioning the field and normalize a single one into a plain condition). (PREFIX-END-SHAPE) keys.bytesPrefixEnd works on a copy and returns it cut right after the incremented byte (the bound is used as an exclusive start as well as an end); (SYNC-INDEX-TABLE) as in C01; ORDER-AGREEMENT additionally requires the one-pass-per-value _in iterator to sort its values when the index is relied on for the order. (DECODE-NO-DEFAULTS) the old document that index maintenance reads through Collection.Get holds stored values only: a field explicitly set to null is nil, not its schema default (otherwise the entry to remove is computed from the default and the update fails with 'corrupted index'). (UNWRAP-EQ-TIME) an index matcher that compares two unwrapped values with == compares times by instant first, like the _eq/_ne matchers — a DateTime decoded from a key is in UTC, a filter literal keeps its offset.",
 			NotDecided:  "that an under-approximating iterator loses no row (value-dependent: null handling, _like, JSON paths, composite prefixes), correctness of dropping the order node when the index provides the order, equality of result multisets over data",
 		},
 	})
